@@ -108,3 +108,8 @@ func VerifCobraBridge(ia InvokedAction) ([]string, cobra.ShellCompDirective) {
 func VerifDirectiveAction(d cobra.ShellCompDirective, values ...string) Action {
 	return compDirective(d).ToA(values...)
 }
+
+// VerifBashCompLine exposes bash.CompLine (reads COMP_LINE / COMP_POINT).
+func VerifBashCompLine() (string, bool) {
+	return bash.CompLine()
+}
